@@ -619,12 +619,12 @@ def run(ctx: Ctx):
         ctx.ob("C19-O4", "R7 EVALUATOR-EXCLUSIVE", nm, f"Result#{k}: evaluations = evaluate.evals", ast.unparse(s.arg("evaluations")) == "evaluate.evals", "", node=s.call)
     uses = [n for n in own_nodes(nm.node) if isinstance(n, ast.Name) and n.id == "objective_fn" and isinstance(n.ctx, ast.Load)]
     ctx.ob("C19-O4", "R7 EVALUATOR-EXCLUSIVE", nm, "the user objective is used exactly once, inside Evaluator(objective_fn, minimize)", len(uses) == 1, "", node=nm.node)
-    check_determinism(ctx, nm, seeded=False)
-    check_nm_shrink(ctx)
-    check_group_b(ctx)
-    check_bounds(ctx)
-    check_population_size(ctx)
-    check_evaluator(ctx)
+    ctx.step(check_determinism, nm, seeded=False)
+    ctx.step(check_nm_shrink)
+    ctx.step(check_group_b)
+    ctx.step(check_bounds)
+    ctx.step(check_population_size)
+    ctx.step(check_evaluator)
     generic_sweeps(ctx)
 
 
